@@ -306,6 +306,27 @@ def gen_panic_probe(tier, rng):
     return ["sparse -1,0|0,1 ; prop", "sparse 127,128|128 ; prop", "sparse 0,1|200,201 ; prop",
             "all 0..4|0..4|0..4|0..4|0..4|0..4 ; prop", "all 0,1|0,1|0,1|0,2,3 ; prop"]
 
+def gen_clusters(tier, rng):
+    """narrow domains whose JOINT span straddles the 128-value representation limit: clusters near 0 and near
+    125..131 (each domain <= 128 wide, the union wider) — added after seeded change C19_hall_mask_span was only
+    seen as a correspondence break on degenerate (empty-domain) histories"""
+    n_cases = 6000 if tier == "quick" else 80000
+    cases = []
+    for _ in range(n_cases):
+        eng = rng.choice(["bitset", "hybrid"])
+        n = rng.randint(2, 6)
+        base = rng.choice([0, 0, -2, 1])
+        far = base + rng.choice([124, 125, 126, 127, 128, 129, 130])
+        doms = []
+        for _ in range(n):
+            c = base if rng.random() < 0.5 else far
+            k = rng.randint(1, 3)
+            vals = sorted(set(c + rng.randint(0, 3) for _ in range(k)))
+            doms.append(",".join(map(str, vals)) if rng.random() < 0.6 else "%d..%d" % (vals[0], vals[0] + rng.randint(0, 2)))
+        ops = ["prop"] if rng.random() < 0.6 else rand_ops(rng, n, base, base + 3, 5)
+        cases.append("%s %s ; %s" % (eng, "|".join(doms), " ; ".join(ops)))
+    return cases
+
 def mk(name, gen, exhaustive=False, pre=prejudge):
     f = Family(name, "gac", gen, nontrivial=nontrivial, prop_judge=prop_judge, exhaustive=exhaustive)
     f.prejudge = pre
@@ -317,6 +338,7 @@ FAMILIES = [
     mk("exhaustive_three_engines", gen_exhaustive, exhaustive=True),
     mk("exhaustive_negative_values", gen_exhaustive_neg, exhaustive=True),
     mk("random_bitset_hybrid", gen_random),
+    mk("joint_span_clusters", gen_clusters),
     mk("random_three_engines", gen_random_all),
     mk("sparse_wide", gen_sparse_wide),
     mk("sparse_two_process", gen_two_process, pre=prejudge_two),
